@@ -2,6 +2,7 @@
 from __future__ import annotations
 
 import ast
+import copy
 
 from ..astutil import attr_chain, call_method, short, src, enum_member, ancestors
 from ..linear import Normaliser, Sym
@@ -46,7 +47,18 @@ def bar_rules(ctx: Ctx, explain: bool = False) -> None:
     params = fi.params
     num_attr, den_attr = "self.time_signature_numerator", "self.time_signature_denominator"
     ua = UnitAnalysis(p, fi)
-    nz = Normaliser()
+    # a constructor argument stored once, unconditionally, in a field and never rebound is that field: `numerator` reads
+    # `self.time_signature_numerator`
+    stores = [s_ for s_ in walk_local(fi.node) if isinstance(s_, ast.Assign) for t in s_.targets if attr_chain(t) and attr_chain(t)[0] == "self" and len(attr_chain(t)) == 2]
+    rebound = {x.id for x in walk_local(fi.node) if isinstance(x, ast.Name) and isinstance(x.ctx, ast.Store)}
+    fields = {}
+    for s_ in fi.node.body:
+        if isinstance(s_, (ast.Assign, ast.AnnAssign)) and isinstance(s_.value, ast.Name) and s_.value.id in params and s_.value.id not in rebound:
+            t = s_.targets[0] if isinstance(s_, ast.Assign) else s_.target
+            ch = attr_chain(t)
+            if ch and len(ch) == 2 and ch[0] == "self" and sum(1 for o in stores if any(attr_chain(t2) == ch for t2 in o.targets)) <= 1:
+                fields[s_.value.id] = ".".join(ch)
+    nz = Normaliser(env={k: Sym.atom(v) for k, v in fields.items()})
     # local definitions (e.g. a `capacity` variable computed once) are substituted into the expressions judged below
     nz.run_block([s_ for s_ in fi.node.body if isinstance(s_, ast.Assign) and len(s_.targets) == 1 and isinstance(s_.targets[0], ast.Name)])
     # symbolic capacity
@@ -149,7 +161,7 @@ def bar_rules(ctx: Ctx, explain: bool = False) -> None:
         ctx.check(bool(rejs) and all(r.lineno < c.lineno for r in rejs), "CAP", f"{FN}: capacity rejection precedes padding", function=FN,
                   construct="padding happens before the capacity rejection", message="", file=fi.file, node=c)
 
-    signature_rewrite(ctx, fi)
+    signature_rewrite(ctx, fi, fields)
     duration_measure(ctx)
 
     from .c16 import own2
@@ -158,8 +170,32 @@ def bar_rules(ctx: Ctx, explain: bool = False) -> None:
     bar_copy(ctx)
 
 
-def signature_rewrite(ctx: Ctx, fi) -> None:
+def _partition_selects(fi, name: str):
+    """How the list `name` is filled by a loop over the sequence's messages: the polarity of the `message_type ? TIME_SIGNATURE` test
+    that governs `name.append(<loop variable>)` -- "ts" (exactly the signatures), "rest" (exactly the others), or None."""
+    from ..astutil import path_conditions
+    inits = [a for a in walk_local(fi.node) if isinstance(a, ast.Assign) and any(isinstance(t, ast.Name) and t.id == name for t in a.targets)]
+    apps = [c for c in walk_local(fi.node) if isinstance(c, ast.Call) and call_method(c)[1] in ("append", "extend", "insert", "remove", "pop", "clear")
+            and isinstance(call_method(c)[0], ast.Name) and call_method(c)[0].id == name]
+    if len(inits) != 1 or not (isinstance(inits[0].value, ast.List) and not inits[0].value.elts) or len(apps) != 1 or call_method(apps[0])[1] != "append":
+        return None
+    lp = next((a for a in ancestors(apps[0]) if isinstance(a, ast.For)), None)
+    if lp is None or not isinstance(lp.target, ast.Name) or src(apps[0].args[0]) != lp.target.id or lp.lineno < inits[0].lineno \
+            or any(isinstance(x, (ast.Break, ast.Continue, ast.Return)) for x in ast.walk(lp)):
+        return None
+    pcs = [(t, h) for t, h in path_conditions(apps[0]) if any(a is lp for a in ancestors(t))]
+    if len(pcs) != 1:
+        return None
+    t, holds = pcs[0]
+    if not (isinstance(t, ast.Compare) and len(t.ops) == 1 and isinstance(t.ops[0], (ast.Eq, ast.NotEq)) and isinstance(t.left, ast.Attribute)
+            and t.left.attr == "message_type" and src(t.left.value) == lp.target.id and enum_member(t.comparators[0], "MessageType") == "TIME_SIGNATURE"):
+        return None
+    return "ts" if isinstance(t.ops[0], ast.Eq) == holds else "rest"
+
+
+def signature_rewrite(ctx: Ctx, fi, fields: dict | None = None) -> None:
     p = ctx.p
+    fields = fields or {}
     body = fi.node.body
     top = {id(s): i for i, s in enumerate(body)}
 
@@ -192,6 +228,8 @@ def signature_rewrite(ctx: Ctx, fi) -> None:
                             and isinstance(a.elt, ast.Name) and isinstance(a.generators[0].target, ast.Name) \
                             and a.elt.id == a.generators[0].target.id:
                         ok = True
+                elif isinstance(a, ast.Name) and _partition_selects(fi, a.id) == "rest":
+                    ok = True                  # the other half of a loop that sets the signatures aside
                 filters.append((n, ok))
             if name == "add_relative_message" and n.args and isinstance(n.args[0], ast.Call) and call_method(n.args[0])[1] == "Message":
                 m = n.args[0]
@@ -238,6 +276,8 @@ def signature_rewrite(ctx: Ctx, fi) -> None:
                 sig_rejects.append(("count", g))
         if "numerator" in txt and "denominator" in txt and "all(" in txt and isinstance(g.test, ast.UnaryOp):
             sig_rejects.append(("uniform", g))
+        elif "numerator" in txt and "denominator" in txt and isinstance(g.test, ast.Call) and src(g.test.func) == "any":
+            sig_rejects.append(("uniform", g))
     # polarity and content of the two rejection tests
     from .c07 import _nnf
     for kind_, g in sig_rejects:
@@ -254,6 +294,14 @@ def signature_rewrite(ctx: Ctx, fi) -> None:
                       construct="signature-count rejection fires for the wrong count", message=f"`{short(g.test, 80)}`", file=fi.file, node=g)
         else:
             alls = [(leaf, neg) for leaf, neg in leaves if isinstance(leaf, ast.Call) and isinstance(leaf.func, ast.Name) and leaf.func.id == "all"]
+            if not alls and len(leaves) == 1 and isinstance(leaves[0][0], ast.Call) and src(leaves[0][0].func) == "any" and leaves[0][0].args \
+                    and isinstance(leaves[0][0].args[0], ast.GeneratorExp):
+                # any(A for ...)  is  not all(not A for ...)
+                from ..model import _Canon
+                ge0 = leaves[0][0].args[0]
+                flipped = ast.GeneratorExp(elt=_Canon().visit_UnaryOp(ast.UnaryOp(op=ast.Not(), operand=copy.deepcopy(ge0.elt))), generators=ge0.generators)
+                call = ast.copy_location(ast.Call(func=ast.Name(id="all", ctx=ast.Load()), args=[ast.copy_location(flipped, ge0)], keywords=[]), leaves[0][0])
+                alls = [(call, not leaves[0][1])]
             ok_ = len(alls) == 1 and len(leaves) == 1 and alls[0][1] is True and alls[0][0].args and isinstance(alls[0][0].args[0], ast.GeneratorExp)
             detail = ""
             if ok_:
@@ -263,10 +311,13 @@ def signature_rewrite(ctx: Ctx, fi) -> None:
                 seen = set()
                 conj = not any(isinstance(x, ast.BoolOp) and isinstance(x.op, ast.Or) for x in ast.walk(ge.elt))
                 for leaf, neg in inner:
+                    if isinstance(leaf, ast.Compare) and len(leaf.ops) == 1 and isinstance(leaf.ops[0], (ast.Eq, ast.NotEq)) \
+                            and not (isinstance(leaf.left, ast.Attribute) and isinstance(leaf.left.value, ast.Name) and leaf.left.value.id == tv):
+                        leaf = ast.copy_location(ast.Compare(left=leaf.comparators[0], ops=leaf.ops, comparators=[leaf.left]), leaf)    # == is symmetric
                     good = isinstance(leaf, ast.Compare) and len(leaf.ops) == 1 and isinstance(leaf.ops[0], (ast.Eq, ast.NotEq)) \
                         and (isinstance(leaf.ops[0], ast.Eq) != neg) and isinstance(leaf.left, ast.Attribute) and isinstance(leaf.left.value, ast.Name) \
-                        and leaf.left.value.id == tv and isinstance(leaf.comparators[0], ast.Attribute) and attr_chain(leaf.comparators[0])[0] == "self" \
-                        and leaf.left.attr in leaf.comparators[0].attr
+                        and leaf.left.value.id == tv and leaf.left.attr in (fields.get(src(leaf.comparators[0])) or (
+                            src(leaf.comparators[0]) if isinstance(leaf.comparators[0], ast.Attribute) and attr_chain(leaf.comparators[0])[0] == "self" else "#"))
                     if good:
                         seen.add(leaf.left.attr)
                     else:
@@ -280,6 +331,10 @@ def signature_rewrite(ctx: Ctx, fi) -> None:
     for _, g in sig_rejects:
         tested |= {x.id for x in ast.walk(g.test) if isinstance(x, ast.Name)}
     for a in walk_local(fi.node):
+        if isinstance(a, ast.Assign) and isinstance(a.targets[0], ast.Name) and a.targets[0].id in tested and isinstance(a.value, ast.List) and not a.value.elts:
+            ctx.check(_partition_selects(fi, a.targets[0].id) == "ts", "SIG", inst + f" `{a.targets[0].id}` collects the TIME_SIGNATURE events", function=FN,
+                      construct="the list tested by the signature rejections is not `the TIME_SIGNATURE events of the sequence`",
+                      message="filled by a loop that does not select exactly the TIME_SIGNATURE events", file=fi.file, node=a)
         if isinstance(a, ast.Assign) and isinstance(a.targets[0], ast.Name) and a.targets[0].id in tested and isinstance(a.value, ast.ListComp):
             ifs = a.value.generators[0].ifs
             okl = len(ifs) == 1 and isinstance(ifs[0], ast.Compare) and isinstance(ifs[0].ops[0], ast.Eq) \
